@@ -23,6 +23,9 @@ ADVERSARIAL_POOL = [
     "population", "weights", "cum_weights", "input_id", "key", "composite_key", "args", "cls", "fn", "code_holder", "ast", "OR", "AND",
     "fields", "source_code", "text", "name", "value", "values", "data", "payload", "inputs", "mapping", "items", "params", "options",
     "config", "context", "request", "experiment", "evaluator", "result", "group", "variant", "salt_", "splitters_", "method", "n", "p",
+    # words that are constants / keywords in OTHER languages (legal identifiers here), builtins with siblings that extend them
+    "true", "false", "null", "nil", "none", "yes", "no", "on", "off", "undefined", "nan", "inf", "this", "var", "let", "function", "end", "then",
+    "id", "id_", "id2", "type", "type_", "hash", "len", "list", "dict", "object", "input", "max", "min", "sum", "all", "any", "print", "exec", "eval",
 ]
 # K1 (known finding): DSL identifiers that are not usable as Python names in the generated code
 PY_RESERVED = set(keyword.kwlist) | {"True", "False", "None", "__debug__"}
